@@ -7,7 +7,7 @@ impl<R: AsyncRead + Unpin + Send + Sync> AsyncReadPacket for R {
     async fn read_packet<T: ReadPacket + Send + Sync>(&mut self) -> Result<T, Error> {
         // extract the length of the packets and check for any following content
         let length = self.read_varint().await?;
-        if length == 0 || length > 10_000 {
+        if length <= 0 || length > 10_000 {
             return Err(Error::IllegalPacketLength);
         }
 
@@ -25,7 +25,13 @@ impl<R: AsyncRead + Unpin + Send + Sync> AsyncReadPacket for R {
         }
 
         // convert the received buffer into our expected packets
-        T::read_from_buffer(&mut take).await
+        let packet = T::read_from_buffer(&mut take).await?;
+
+        // whatever the packet type did not look at still belongs to this frame, the next packet
+        // starts behind it
+        tokio::io::copy(&mut take, &mut tokio::io::sink()).await?;
+
+        Ok(packet)
     }
 
     async fn read_varint(&mut self) -> Result<VarInt, Error> {
